@@ -29,11 +29,11 @@ RULE = (
 )
 TOLERANCES = {"recomputed_rel": 1e-9}
 FLOORS = {"quick": {"law.roundtrip": 12, "law.load-twice": 12, "law.idempotent": 6, "law.roundtrip-later-node": 8, "nodes.compared": 3000,
-                    "law.roundtrip/thrz": 1, "loaded-tree.parent-links": 10000, "loaded-tree.core-lookups": 1500,
+                    "law.roundtrip/thrz": 1, "history.third-core-with-edge-assemblies": 2, "loaded-tree.parent-links": 10000, "loaded-tree.core-lookups": 1500,
                     "persistence.definitions-pinned": 3000, "workload.nodefault-column-fully-assigned": 12,
                     "classify.recomputed-judged-against-original": 2500},
           "thorough": {"law.roundtrip": 150, "law.load-twice": 150, "law.idempotent": 60, "law.roundtrip-later-node": 80, "nodes.compared": 60000,
-                       "law.roundtrip/thrz": 4, "loaded-tree.parent-links": 100000, "loaded-tree.core-lookups": 15000,
+                       "law.roundtrip/thrz": 4, "history.third-core-with-edge-assemblies": 8, "loaded-tree.parent-links": 100000, "loaded-tree.core-lookups": 15000,
                        "persistence.definitions-pinned": 5000, "workload.nodefault-column-fully-assigned": 150,
                        "classify.recomputed-judged-against-original": 25000}}
 TIMEOUT = {"quick": 900, "thorough": 7200}
@@ -343,8 +343,24 @@ def history(rec, rng, r, w):
     from armi.reactor.flags import Flags
 
     hist = []
-    groups = classes_of(r)
     core = r.core
+    # a third core carrying its edge assemblies on both symmetry lines (what EdgeAssemblyChanger.addEdgeAssemblies leaves behind) is a
+    # state users write to the database too: the half assemblies and their volume-integrated parameters must come back as written
+    try:
+        sym = str(core.symmetry)
+        if type(core.spatialGrid).__name__ == "HexGrid" and "third" in sym and (rng.random() < .5 or w.get("case") == 0):
+            from armi.reactor.converters.geometryConverters import EdgeAssemblyChanger
+            from vlib.env import quiet as _quiet
+
+            n0 = len(core)
+            with _quiet():
+                EdgeAssemblyChanger().addEdgeAssemblies(core)
+            if len(core) > n0:
+                hist.append("add-edge-assemblies(+%d)" % (len(core) - n0))
+                rec.hit("history.third-core-with-edge-assemblies")
+    except Exception as e:
+        rec.crash("history-op/add-edge-assemblies", e, dict(w, history=hist))
+    groups = classes_of(r)
     nsteps = rng.randint(8, 25)
     for _ in range(nsteps):
         op = rng.choice(["param", "param", "param", "param-subset", "ndens", "temperature", "rotate-block", "swap", "discharge", "free-coordinate", "core-param", "table-param"])
